@@ -217,7 +217,7 @@ class Outcome:
 class Interp:
     def __init__(self, prog, axioms=None, opaque=(), event_hook=None, max_depth=10,
                  loop_bound=3, max_states=60000, assume_unknown_asserts=True,
-                 named_universe=None):
+                 named_universe=None, dedup=False):
         self.prog = prog
         self.axioms = axioms or {}
         self.opaque = set(opaque)
@@ -229,6 +229,8 @@ class Interp:
         self.named_universe = named_universe or {}
         self.steps = 0
         self.unknown_calls = defaultdict(int)
+        self.dedup = dedup
+        self.seen = set()
         # http 1.1.0, src/method.rs: `pub const GET: Method = Method(Get);` etc.
         self.variant_links = {"http::method::Inner": {
             "Options": "Method::OPTIONS", "Get": "Method::GET", "Post": "Method::POST", "Put": "Method::PUT",
@@ -249,6 +251,8 @@ class Interp:
         return self.explore(st)
 
     def explore(self, st0):
+        if len(st0.frames) == 1 and st0.frames[0].bb == 0:
+            self.seen = set()
         work = [st0]
         outcomes = []
         nstates = 0
@@ -553,7 +557,60 @@ class Interp:
             st.loopmem[key] = {r: dict(d) for r, d in st.mem.items()}
         elif n >= 2:
             st.loopmem[key] = {r: dict(d) for r, d in st.mem.items()}
+        if self.dedup and n >= 2 and bb in fr.body.loop_heads():
+            self.gc_facts(st)
+            # state merging at loop heads: an abstract state already explored from this program
+            # point needs no second exploration (events are not part of the key)
+            k = (key, self.state_key(st))
+            if k in self.seen:
+                return []
+            self.seen.add(k)
         return None
+
+    def gc_facts(self, st):
+        """drop facts about atoms that no memory leaf mentions any more (sound: forgetting a
+        constraint only adds behaviours); lets loop iterations converge to equal states"""
+        live = set()
+
+        def walk(t):
+            if isinstance(t, tuple):
+                if t in live:
+                    return
+                live.add(t)
+                for x in t:
+                    if isinstance(x, tuple):
+                        walk(x)
+        for d in st.mem.values():
+            for l in d.values():
+                if l[0] == "term":
+                    walk(l[1])
+
+        def operands(k):
+            if k[0] == "not":
+                return operands(k[1])
+            if k[0] in ("lt", "eq"):
+                return [x[1] for x in (k[1], k[2]) if isinstance(x, tuple) and x and x[0] == "term"]
+            if k[0] in ("is", "discr"):
+                return [k[1]]
+            return [k]
+        for k in list(st.facts):
+            ops = operands(k)
+            if ops and not any(o in live for o in ops):
+                del st.facts[k]
+
+    def state_key(self, st):
+        def canon(d):
+            out = []
+            for p, l in d.items():
+                if l == TOP and not any(p[:k] in d and d[p[:k]][0] == "term" for k in range(len(p))):
+                    continue   # an explicit unknown where absence means unknown as well
+                out.append((p, l))
+            return tuple(sorted(out, key=repr))
+        mem = tuple(sorted(((r, canon(d)) for r, d in st.mem.items() if d), key=repr))
+        mem = tuple(x for x in mem if x[1])
+        facts = tuple(sorted(st.facts.items(), key=repr))
+        pos = tuple((f.body.id, f.bb, f.si) for f in st.frames)
+        return hash((mem, facts, pos))
 
     # ---- statements
     def exec_stmt(self, st, fr, s):
@@ -830,6 +887,11 @@ class Interp:
     def do_return(self, st, fr):
         ret = st.read_tree(self.local_root(fr, 0), ())
         st.frames.pop()
+        # the callee's locals are dead: drop them (keeps abstract states comparable)
+        uid = fr.uid
+        for r in [] if (uid[0] == "P" or not st.frames) else [r for r in st.mem if (r[0] in ("L", "E") and r[1] == uid) or
+                  (r[0] == "A" and r[1][0] in ("L", "E") and r[1][1] == uid)]:
+            del st.mem[r]
         if not st.frames:
             return [Outcome("return", st, ret=ret)]
         if fr.on_return is not None:
@@ -999,13 +1061,16 @@ class Interp:
             env = clos_tree
         return self.enter(st, fr, body, [env] + list(arg_trees), None, None, on_return=on_return)
 
-    def havoc_refs(self, st, args, types=None):
+    def havoc_refs(self, st, args, types=None, site=None):
         for i, a in enumerate(args):
             l = tree_leaf(a)
             if l[0] == "ref":
                 if types is not None and not types[i].startswith("&mut"):
                     continue
-                st.write_tree(l[1], l[2], leaf_tree(TOP))
+                new = TOP
+                if site is not None and site[-1] < self.loop_bound:
+                    new = ("term", ("hv", i) + site)   # a new, unknown value (distinct from the old one)
+                st.write_tree(l[1], l[2], leaf_tree(new))
 
     def default_foreign(self, call):
         st = call.st
@@ -1014,11 +1079,17 @@ class Interp:
         tys = [self.operand_ty(call.fr, a) for a in call.term["args"]]
         key = (self.stack_key(st), call.fr.bb)
         # uninterpreted result, keyed by call site and abstract arguments (keeps the origin visible)
-        res = ("term", ("call", path, call.fr.body.id, call.fr.bb, st.visits.get(key, 0))
-               + tuple(call.arg_key(a) for a in call.args))
+        nvis = st.visits.get(key, 0)
+        if nvis >= self.loop_bound:
+            # beyond the loop bound results are plain unknowns (no atom, no recorded facts):
+            # keeps the domain finite so that loops reach a fixpoint
+            res = TOP
+        else:
+            res = ("term", ("call", path, call.fr.body.id, call.fr.bb, nvis)
+                   + tuple(call.arg_key(a) for a in call.args))
         if short(call.term["dest"]["ty"]) in ("()", "!"):
             res = UNIT
-        self.havoc_refs(st, call.args, tys)
+        self.havoc_refs(st, call.args, tys, site=(call.fr.body.id, call.fr.bb, nvis))
         st.write_tree(call.dest[0], call.dest[1], leaf_tree(res))
         if call.term["target"] is None:
             site = dict(body=call.fr.body, bb=call.fr.bb, kind="diverging-call:" + path,
@@ -1094,16 +1165,29 @@ class Call:
         """hashable abstract of an argument for pure-application terms"""
         t = self.deref(tree)
         l = tree_leaf(t)
-        if l == TOP:
+        if len(t) > 1 and l[0] != "term":
+            items = tuple(sorted(((p, x) for p, x in t.items() if not (p == () and x == TOP)), key=repr))
+            if len(items) <= 6:
+                return ("agg", items)     # small aggregate (range, tuple): structural key
             a = self.deref_addr(tree)
             if a is not None:
-                return ("at", a[0], a[1])
-            return TOP
+                # a struct in memory: identified by where it lives and by its current content, so
+                # that a mutation between two calls yields a different key
+                return ("obj", a[0], a[1], hash(items))
+            return ("agg#", hash(items))
         return l
 
     def ret_app(self, name, nargs=None):
         """return an uninterpreted pure application term f(args)"""
         keys = tuple(self.arg_key(a) for a in (self.args if nargs is None else self.args[:nargs]))
+        if any(k == TOP for k in keys):
+            # a pure function of an unknown value: an atom private to this call site and visit
+            st = self.st
+            key = (self.interp.stack_key(st), self.fr.bb)
+            nvis = st.visits.get(key, 0)
+            if nvis >= self.interp.loop_bound:
+                return self.ret_leaf(TOP)
+            return self.ret_leaf(("term", ("call", name, self.fr.body.id, self.fr.bb, nvis) + keys))
         return self.ret_leaf(("term", ("app", name) + keys))
 
     def panic(self, kind):
